@@ -35,8 +35,11 @@ impl Vm {
     // As this isn't accounted for during compilation. The class takes the
     // callee slot which the call replaces with the new instance, without it
     // the instance would overwrite whatever value is on top of the stack
+    // growing the stack allocates, until the message is on the stack nothing else roots it
+    self.push_root(error_message);
     let mut fiber = self.fiber;
     fiber.ensure_stack(self, 2);
+    self.pop_roots(1);
     fiber.push(val!(error));
     fiber.push(error_message);
 
